@@ -106,8 +106,15 @@ def sweep (r : Run) (x : T) (σ : List Nat) : Nat → Nat → Dist Swarm → Dis
       sweep r x σ fuel (t + 1)
         (Dist.norm (Dist.bind d fun sw => Dist.bind (resample r sw) fun sw' => update r x σ t sw'))
 
+/-- `AbstractSMCSampler.sample`: `_init_swarm`, `_resample_swarm`, then for every further data point
+`_update_swarm` followed (except after the last one) by `_resample_swarm`.  With a single data point
+the loop is empty, so the swarm of the first (= last) step is resampled (if the rule fires) before
+the final draw; with more data points the resampling after `_init_swarm` is the one in front of the
+first `_update_swarm` in `sweep`. -/
 def csmc (r : Run) (x : T) (σ : List Nat) : Dist Swarm :=
-  sweep r x σ σ.length 1 (Dist.norm (initSwarm r x σ))
+  let d0 := Dist.norm (initSwarm r x σ)
+  if σ.length = 1 then Dist.norm (Dist.bind d0 fun sw => resample r sw)
+  else sweep r x σ σ.length 1 d0
 
 /-- final draw proportional to the swarm weights -/
 def select (sw : Swarm) : Dist T := Dist.categorical sw
